@@ -558,6 +558,62 @@ def gram_histories(rng, nrandom):
         yield ops
 
 
+# ------------------------------------------------------------------ connect_ex return codes (Client.accept)
+CONNECT_WB = [errno.EINPROGRESS, errno.EALREADY, errno.EAGAIN, errno.EWOULDBLOCK, errno.EINTR]
+CONNECT_CODES = [0, errno.EISCONN, errno.EINPROGRESS, errno.EALREADY, errno.EAGAIN, errno.EINTR, errno.EINVAL,
+                 errno.ECONNREFUSED, errno.ETIMEDOUT, errno.ENETUNREACH, errno.EHOSTUNREACH, errno.ECONNRESET]
+
+
+class ConnSock(Sock):
+    """socket double whose connect_ex RETURNS the next code of the world's list"""
+    def __init__(self, world):
+        Sock.__init__(self)
+        self.world = world
+        self.sid = world["made"]
+        world["made"] += 1
+
+    def connect_ex(self, ha):
+        return self.world["codes"].pop(0)
+
+
+def run_connect(kind, codes):
+    """successive Client.accept() calls while not connected; the environment part of open() (creating a
+    real socket) is replaced by a double that creates a ConnSock and clears the flags as open() does"""
+    from ioflo.aio.tcp import clienting
+    world = {"made": 0, "codes": list(codes)}
+    o = clienting.Client(ha=HA) if kind == "Client" else clienting.ClientTls(ha=HA, context=Ctx())
+
+    def fake_open():
+        o.accepted = False
+        o.connected = False
+        o.cutoff = False
+        o.cs = ConnSock(world)
+        o.opened = True
+        return True
+    o.open = fake_open
+    o.reopen()
+    trace = []
+    for _ in codes:
+        if o.accepted:
+            break
+        before = o.cs
+        ret = o.accept()
+        trace.append({"ret": bool(ret), "same_socket": o.cs is before, "old_closed": before.closed,
+                      "accepted": bool(o.accepted)})
+    return {"sockid": o.cs.sid, "accepted": bool(o.accepted), "trace": trace}
+
+
+def connect_prop(codes, r):
+    """would-block class results of connect_ex never change connection state; 0 / EISCONN connect on the same socket"""
+    for k, (c, t) in enumerate(zip(codes, r["trace"])):
+        if c in CONNECT_WB and (not t["same_socket"] or t["old_closed"] or t["accepted"] or t["ret"]):
+            return "attempt %d: connect_ex returned %s (connect still pending) but the client %s" % (
+                k, errno.errorcode.get(c, c), "closed its socket and opened a new one" if not t["same_socket"] else "changed state")
+        if c in (0, errno.EISCONN) and not (t["same_socket"] and t["accepted"] and t["ret"]):
+            return "attempt %d: connect_ex returned %s but the client is not connected on that socket" % (k, c)
+    return None
+
+
 def run(ctx):
     from ioflo.aid.consoling import getConsole
     getConsole().reinit(verbosity=0)   # keep ioflo's console output out of the check's stdout
@@ -657,7 +713,43 @@ def run(ctx):
             ctx.tie_broken("correspondence", "C25 Gram model vs %s" % cls, "ops=%r impl=%r" % (ops, r))
         ctx.extra["gram_mismatches"] = len(gbad)
 
+    # ---- connect_ex return codes: every sequence of <= 2 codes (quick) / <= 3 (thorough), Client and ClientTls
+    import itertools as _it
+    cmetas, ccases = [], []
+    for kind in ("Client", "ClientTls"):
+        for n in range(1, ctx.n(2, 3) + 1):
+            for codes in _it.product(CONNECT_CODES, repeat=n):
+                r = run_connect(kind, codes)
+                ctx.case({"class": kind, "connect_ex_returns": codes}, nontrivial=any(c in CONNECT_WB for c in codes),
+                         kind="connect/%s" % kind)
+                ccases.append(("(let s := connect_run {| sockid := 0; accepted := false |} %s in [Z.of_nat (sockid s); if accepted s then 1 else 0])"
+                               % clist([cz(c) for c in codes], "Z"),
+                               clist([cz(r["sockid"]), cz(int(r["accepted"]))], "Z")))
+                cmetas.append((kind, codes, r))
+    if sites:
+        try:
+            cbad = ctx.coq_cases("From Coq Require Import List ZArith Bool.\nImport ListNotations.\n"
+                                 "Require Import V.C25.Connect.\nOpen Scope Z_scope.\n"
+                                 "Fixpoint lz_eqb (a b : list Z) := match a, b with [], [] => true | x :: a', y :: b' => "
+                                 "Z.eqb x y && lz_eqb a' b' | _, _ => false end.\n", "lz_eqb", ccases, name="connect")
+        except RuntimeError as ex:
+            ctx.tie_broken("harness", "coq_cases connect", str(ex)[-1500:])
+            cbad = []
+        for i in cbad[:5]:
+            kind, codes, r = cmetas[i]
+            ctx.tie_broken("correspondence", "C25 connect model vs %s.accept" % kind,
+                           "connect_ex returns %r impl=%r" % ([errno.errorcode.get(c, c) for c in codes], r))
+        ctx.extra["connect_mismatches"] = len(cbad)
+
     def search():
+        cfail = None
+        for kind, codes, r in cmetas:
+            why = connect_prop(codes, r)
+            if why and (cfail is None or len(codes) < len(cfail["connect_ex_returns"])):
+                cfail = {"key": "connect-wouldblock-code-reopens-socket", "class": kind,
+                         "connect_ex_returns": [errno.errorcode.get(c, c) for c in codes], "observed": r, "why": why,
+                         "expected": "EINPROGRESS/EALREADY/EAGAIN/EWOULDBLOCK/EINTR keep the socket; 0/EISCONN connect on it",
+                         "contradicts": "C25.Props.connect_wouldblock_keeps_the_socket"}
         gfail = None
         for cls, ops, r in gmetas:
             why = gram_prop(ops, r)
@@ -669,7 +761,7 @@ def run(ctx):
         fails = [(s, l, g, w) for s, l, g, w in observed
                  if w is not None and (g not in w if isinstance(w, tuple) else g != w)]
         if not fails:
-            return gfail
+            return cfail or gfail
         tls = [f for f in fails if "Tls" in f[0]]
         gram = [f for f in fails if f[0].startswith("GramStack")]
         rest = [f for f in fails if f not in tls and f not in gram]
